@@ -16,8 +16,8 @@ RULE = ("16 documented block classes (12 with the closed forms the property stat
         "integer value is physical; per draw: closed form, unitarity or passivity, power reciprocity, documented zero "
         "entries; per block and argument type: put()/connect by pin name, solve inside a solver, str(), print_S(), "
         "show_free_pins(), inspect(); distinct = (block, arguments); non-trivial = every case")
-TRUSTED = ["numpy exp/sqrt/cos/sin/abs/angle vs the real functions", "CPython format()",
-           "translator tables.py (update_pins call, format specs) for the table-driven theorems"]
+TRUSTED = ["numpy exp/sqrt/cos/sin/abs/angle vs the real functions",
+           "translators blocks.py / symtrace.py (symbolic execution of the block classes) and tables.py + probes.py (interface facts observed on instances)"]
 ASSUMPTIONS = ["user-supplied index functions (UserWaveguide, TH_PhaseShifter) are arbitrary real functions: theorems take them as parameters"]
 EXPLANATION = "closed forms as Lean theorems over ℝ/ℂ for the definitions regenerated from model.py; interface facts from generated tables"
 
@@ -275,23 +275,6 @@ def draw_history(rng, spec, p):
     return hist
 
 
-def fmt_monitor(ctx):
-    """the finite table `C09.fmtOk` (Lean) against CPython's real format() on ints and floats"""
-    fixed = [".3f", ".2f", ".4f", ".3e", ".3g"]
-    general = [".3", ".2", ".4"]
-    for spec in fixed + general:
-        for ty, v in (("int", 3), ("float", 0.25), ("np.int64", np.int64(3)), ("np.float64", np.float64(0.25))):
-            try:
-                format(v, spec)
-                real = True
-            except Exception:
-                real = False
-            model = True if spec in fixed else (ty in ("float", "np.float64"))
-            ctx.assumption_monitors[f"format:{spec}:{ty}"] += 1
-            if real != model:
-                ctx.disagreement("C09.model.fmtOk", f"format({ty}, {spec!r}) {'works' if real else 'raises'}, the Lean table says {model}", {"spec": spec, "type": ty})
-
-
 def trace_monitor(ctx, rng):
     """the translator of `Generated/Blocks.lean` against the running code: the expression trees obtained by executing the
     block classes symbolically, evaluated numerically, must be the matrices the real classes return (real numpy)"""
@@ -326,7 +309,6 @@ def trace_monitor(ctx, rng):
 def run(ctx):
     rng = ctx.subrng("c09")
     B = blocks()
-    fmt_monitor(ctx)
     trace_monitor(ctx, ctx.subrng("c09-trace"))
     n = ctx.budget(40, 1000)
     for name, spec in B.items():
